@@ -220,7 +220,10 @@ func compareSet(c *vk.C, u *torrentUnderTest, view, site string, got []link, wan
 		if !seen[k] {
 			sig := view + "-misses-file"
 			if site != "url" && mangled(f.comps) {
-				sig = "href-entity " + site
+				// only if the view names the entity-decoded twin instead
+				if d, ok := splitEsc(attrDecode(esc(f.comps))); ok && seen[key(d)] {
+					sig = "href-entity " + site
+				}
 			}
 			viol(c, "names", sig, fmt.Sprintf("%s does not name file %q", where, f.comps), rep)
 		}
@@ -457,13 +460,11 @@ func checkListing(c *vk.C, u *torrentUnderTest, dir []string, target, view strin
 			viol(c, "names", sig, fmt.Sprintf("page %q links the playlist of directory %q (href %q) which holds no file", target, d.comps, d.href), rep)
 		}
 	}
+	// (which sub-directories a page links is navigation, not part of the
+	// statement: counted only)
 	for k, d := range all {
 		if len(d) > len(dir) && isPrefix(dir, d) && !seen[k] {
-			sig := view + "-misses-dir"
-			if mangled(d) {
-				sig = "href-entity dir-link"
-			}
-			viol(c, "names", sig, fmt.Sprintf("page %q does not link sub-directory %q", target, d), rep)
+			c.Count("listing_subdirs_not_linked", 1)
 		}
 	}
 	return l
